@@ -114,6 +114,24 @@ func (r *run) playRandom(g *vc.Rng, profile string) {
 		hostile = 1 + g.Intn(2*w.hostile)
 	}
 	service := g.Intn(1 + 2*w.service)
+	// budgets one above a small constant of the client's own sources (a retry budget, a queue length, a counter's
+	// limit are boundaries of the implementation no protocol document knows): one schedule in twelve repeats ONE kind
+	// of event that many times
+	if lits := vc.SourceLiterals(2, 40, ".", "internal/utils", "internal/transport"); len(lits) > 0 && g.Intn(12) == 0 {
+		k := lits[g.Intn(len(lits))] + 1
+		switch g.Intn(3) {
+		case 0:
+			if w.close > 0 {
+				closes = k
+			}
+		case 1:
+			if w.hostile > 0 {
+				hostile = k
+			}
+		case 2:
+			service = k
+		}
+	}
 	dups := 0
 	if w.dup > 0 {
 		dups = g.Intn(1 + w.dup)
